@@ -4,6 +4,7 @@
 import Gmars.Proofs.Abs
 import Gmars.Proofs.SpecRotate
 import Gmars.Proofs.Sched
+import Gmars.Proofs.ApiRel
 
 namespace Gmars.Props.C12
 open Gmars Gmars.Spec
@@ -45,6 +46,53 @@ theorem spawn_congr (s : Api) (i : Int) (off j : Nat) : s.spawn i (off + j * s.M
 theorem spawn_rotate (k : Nat) (s : Api) (h : s.WFs) (i : Int) (off : Nat) :
     (rotApi k s).spawn i ((off + k) % s.M) = (s.spawn i off).map (rotApi k) :=
   Spec.spawn_rotate k s h i off
+
+/-- the reference's spawn depends only on the offset modulo the core size -/
+theorem spawn_mod (s : Api) (i : Int) (off : Nat) : s.spawn i (off % s.M) = s.spawn i off :=
+  Spec.Api.spawn_mod s i off
+
+/-- `spawn_any_offset` on the model of the Go code: `SpawnWarrior` reduces the offset modulo the
+    core size first, so for EVERY 64-bit offset (also those within the warrior's length of 2^64,
+    where `off + i` wraps) the call is the call at the reduced offset -/
+theorem model_spawn_any_offset (s : Sim) (wi : Int) (off : UInt64) :
+    s.spawn wi off = s.spawn wi (off % s.m) :=
+  Gmars.spawn_any_offset s wi off
+
+/-- `spawn_congr` on the model of the Go code: offsets congruent modulo the core size give the
+    same call (same result, state and report), without any bound on the offsets -/
+theorem model_spawn_congr (s : Sim) (wi : Int) (off off' : UInt64) (h : off % s.m = off' % s.m) :
+    s.spawn wi off = s.spawn wi off' :=
+  Gmars.spawn_congr_model s wi off off' h
+
+/-- `spawn_rotate` on the model of the Go code: take a battle `s₁` and the same battle `s₂` placed
+    `k` cells further around the core. Spawning warrior `wi` at ANY 64-bit offset `off₁` in `s₁`
+    and at ANY offset `off₂ ≡ off₁ + k (mod M)` in `s₂` is accepted by both or rejected by both
+    (state unchanged); when accepted, `s₁'` is related to the reference's spawn and `s₂'` to its
+    rotation by `k`. -/
+theorem model_spawn_rotate {s₁ s₂ : Sim} {a : Api} (k : Nat) (ha : a.WFs)
+    (p₁ : Pre s₁) (p₂ : Pre s₂) (r₁ : Rel s₁ a) (r₂ : Rel s₂ (rotApi k a))
+    (d₁ : DataRel s₁ a) (d₂ : DataRel s₂ (rotApi k a)) (t₁ : StartsOK s₁) (t₂ : StartsOK s₂)
+    (wi : Int) (off₁ off₂ : UInt64) (hoff : off₂.toNat % a.M = (off₁.toNat + k) % a.M) :
+    match s₁.spawn wi off₁, s₂.spawn wi off₂ with
+    | .ok (s₁', true), .ok (s₂', true) =>
+        ∃ a', a.spawn wi off₁.toNat = some a' ∧ Rel s₁' a' ∧ Rel s₂' (rotApi k a')
+    | .ok (s₁', false), .ok (s₂', false) => s₁' = s₁ ∧ s₂' = s₂
+    | _, _ => False := by
+  have h₁ := spawn_rel (wi := wi) (off := off₁) p₁.wf r₁ d₁ t₁ (by have := p₁.m32; omega)
+  have h₂ := spawn_rel (wi := wi) (off := off₂) p₂.wf r₂ d₂ t₂ (by have := p₂.m32; omega)
+  have hM : (rotApi k a).M = a.M := rfl
+  rw [← Spec.Api.spawn_mod, hM, hoff, Spec.spawn_rotate k a ha wi off₁.toNat] at h₂
+  rcases e₁ : s₁.spawn wi off₁ with _ | ⟨s₁', b₁⟩ <;> rw [e₁] at h₁
+  · exact h₁
+  rcases e₂ : s₂.spawn wi off₂ with _ | ⟨s₂', b₂⟩ <;> rw [e₂] at h₂
+  · cases b₁ <;> exact h₂
+  rcases e₃ : a.spawn wi off₁.toNat with _ | a' <;> rw [e₃] at h₁ h₂ <;>
+    cases b₁ <;> cases b₂ <;> simp only [Option.map_none, Option.map_some] at h₁ h₂ ⊢ <;>
+    first
+      | exact ⟨h₁, h₂⟩
+      | exact ⟨a', rfl, h₁, h₂⟩
+      | exact h₁
+      | exact h₂
 
 /-- `runCycle_rotate`: a whole cycle of the reference scheduler commutes with rotation and returns
     the same living count -/
